@@ -227,6 +227,39 @@ package table
 //@   requires 0 <= attrsLen && attrsLen <= 1000000
 //@   loop 0 decreases len(paths)
 
+//@ func (*packerV4).pack
+//@   claims at-call
+//@   at-call bgp.IsAddPathEnabled( requires !arg0
+
+// packerMP (every family but plain IPv4 unicast). split: from C11 "each fit the session's maximum size": a batch
+// handed to the message builder holds at least one prefix, and more than one only while the octets of its prefixes
+// (4 more each under ADD-PATH) stay within the budget - the session's limit minus the base length; every round
+// consumes at least one route (termination), nothing is indexed out of range
+//@ func (*packerMP).pack$1
+//@   claims make bounds variant inv-init inv-keep at-call
+//@   loop 1 decreases len(paths)
+//@   loop 2 invariant len(nlris) == i && 0 <= i && i <= len(paths) && (used <= budget || i <= 1)
+//@   at-call ^cb(nlris) requires len(arg0) >= 1
+//@   at-call ^cb(nlris) requires len(arg0) == i
+//@   at-call ^cb(nlris) requires i <= len(paths)
+//@   at-call ^append(nlris, bgp.PathNLRI{NLRI: paths[i] requires used <= budget || i == 0
+
+// the base length handed to split reserves everything of the message but the prefixes: header (19), the two
+// length fields (2+2), the other attributes, and the MP_(UN)REACH_NLRI attribute without its prefixes counted with
+// the 4-octet attribute header it gets as soon as its value exceeds 255 octets; a route whose MP_REACH_NLRI cannot
+// be built leaves no budget (it travels alone)
+//@ func (*packerMP).pack
+//@   claims at-call
+// "ADD-PATH ids" in the size arithmetic: what is budgeted for is what will be SENT - the 4 octets of a path id are
+// counted exactly when ADD-PATH is negotiated in the send direction (the decode flag is false), as the encoders do
+//@   at-call bgp.IsAddPathEnabled( requires !arg0
+//@   at-call ^split(baseUnreachLen requires arg0 >= 19 + 2 + 2 + 4 + int(emptyUnreach.Length)
+// "a route shares a message only with routes whose attributes are identical": the next-hop part of the key a group
+// is opened with is the one computed from BOTH next hops of the route's MP_REACH_NLRI (getMPReachNexthops)
+//@   at-call newMPCage( requires called(getMPReachNexthops)
+//@   at-call ^split(baseReachLen requires err != nil ==> arg0 >= maxUpdateMessageLength(options)
+//@   at-call ^split(baseReachLen requires err == nil && 0 <= attrsLen && attrsLen <= 1000000000 && paths[0].GetNlri().Len(options) <= 1000000 ==> arg0 >= 19 + 2 + 2 + attrsLen + 4 + int(sampleReach.Length) - paths[0].GetNlri().Len(options)
+
 // ---- equal-cost multipath set ---------------------------------------------------------------
 //@ props C03
 //@ func (*Path).Compare
